@@ -57,7 +57,7 @@ def gen_service_program(rng: Any, *, crash: bool = False) -> dict[str, Any]:
                     "ends_by_itself": None, "started_value": rng.random() < 0.5, "own_teardown": rng.random() < 0.4,
                     "spawn_via": rng.choice(["method", "shortcut"]),
                     # how a callable teardown action is given: plain function, functools.partial, or an object with __call__
-                    "action_form": rng.choice(["function", "function", "partial", "object", "unhashable_object", "builtin", "method_wrapper"]),
+                    "action_form": rng.choice(["function", "function", "partial", "object", "unhashable_object", "builtin", "method_wrapper", "awaitable_object"]),
                     "func_form": rng.choice(["function", "function", "partial", "object", "unhashable_object", "lambda"]),
                     "start_delay": 0, "from_child": rng.random() < 0.15}
             if spec["started_value"] and rng.random() < 0.4:
@@ -280,6 +280,20 @@ class ServiceRun:
                         yield
 
                     teardown_action = trigger_gen().__next__
+            elif form == "awaitable_object" and action in ("async_callable", "raising_async_callable"):
+                # a plain function that hands back an awaitable which is not a coroutine (a future, a gather(), an object with
+                # __await__): the action is only carried out once that has been awaited
+                inner_async = teardown_action
+
+                class Pending:
+                    def __init__(self, coro: Any) -> None:
+                        self.coro = coro
+
+                    def __await__(self) -> Any:
+                        return self.coro.__await__()
+
+                def teardown_action() -> Any:
+                    return Pending(inner_async())
             elif form in ("object", "unhashable_object"):
                 inner_action = teardown_action
 
@@ -667,7 +681,7 @@ def gen_factory_program(rng: Any) -> dict[str, Any]:
                     outcome = "return"
                 else:
                     will_crash = True
-            spec = {"tid": tid, "via": rng.choice(["start_task", "start_task_soon"]), "from": rng.choice(["owner", "foreign", "foreign_sync", "task"]),
+            spec = {"tid": tid, "via": rng.choice(["start_task", "start_task_soon"]), "from": rng.choice(["owner", "foreign", "foreign_sync", "task", "bare"]),
                     # (0: the task never waits for anything - it is over before whoever spawned it runs again)
                     "dur": rng.choice([0, 0.125, 0.625, 1.125, 2.625, 5.125]), "outcome": outcome, "exc": rng.choice(["ValueError", "Custom", "Group"]),
                     "task_status": rng.random() < 0.5, "name": rng.choice([None, f"task{tid}"]),
@@ -898,6 +912,21 @@ class FactoryRun:
                     finally:
                         done.set()
 
+        bare_send, bare_recv = anyio.create_memory_object_stream[Any](0)
+
+        async def bare_actor() -> None:
+            # a task that lives outside every context (a dispatcher started before the application's context was entered): it
+            # has no current context at all when it spawns tasks through the factory
+            async for spec, done in bare_recv:
+                try:
+                    await run.spawn(spec, "bare", None)
+                except RuntimeError as e:
+                    if not run.going_down:
+                        raise
+                    run.log("spawn-failed", spec["tid"], exc=describe_exc(e), after_fatal=True)
+                finally:
+                    done.set()
+
         async def owner_block(ctx: Any) -> None:
             self.owner = ctx
             if not prog.get("owner_empty"):
@@ -936,6 +965,10 @@ class FactoryRun:
                             await checkpoint()
                     elif spec["from"] == "owner":
                         await self.spawn(spec, "owner", ctx)
+                    elif spec["from"] == "bare":
+                        done = anyio.Event()
+                        await bare_send.send((spec, done))
+                        await done.wait()
                     else:
                         done = anyio.Event()
                         await foreign_send.send((spec, done))
@@ -971,6 +1004,7 @@ class FactoryRun:
             async with create_task_group() as outer:
                 self.waiters = outer
                 outer.start_soon(foreign_actor)
+                outer.start_soon(bare_actor)
                 while not foreign_ctx:
                     await checkpoint()
                 try:
@@ -1013,6 +1047,7 @@ class FactoryRun:
                     self.check_handles("after spawn attempt on a finished factory")
                 await anyio.sleep(50)
                 foreign_send.close()
+                bare_send.close()
                 outer.cancel_scope.cancel()
         except BaseException as e:
             self.crash = e
